@@ -1,6 +1,9 @@
 package main
 
-import "verif/layera"
+import (
+	"verif/layera"
+	"verif/layerb"
+)
 
 func init() {
 	propRunners["C03"] = runC03
@@ -27,5 +30,27 @@ func runC03(opt *Options) int {
 			"go/types runs natively on concrete objects; jennifer opaque",
 		},
 	}
-	return lr.finish(lr.run(), nil)
+	// Layer B leg: whole-run accept / reject outcomes (and values of the accepted ones) for field resolution,
+	// kind mismatches and signature shapes - the dispatcher's context (which settings reach which struct, what is
+	// in scope) is only real in whole runs
+	var convs []*layerb.Conv
+	convs = append(convs, layerb.FamilyField(opt.Thorough())...)
+	for _, c := range layerb.FamilyShape(false, opt.Seed) {
+		if c.ExpectFail {
+			convs = append(convs, c)
+		}
+	}
+	for _, c := range layerb.FamilyPtrs(false) {
+		if c.ExpectFail {
+			convs = append(convs, c)
+		}
+	}
+	lb := &lbRun{Opt: opt, Convs: convs, Check: layerb.CheckValue, Bounds: layerb.Bounds{MaxSlice: 1, MaxMap: 1, RecDepth: 1}, NoEvidence: true, Rule: lbRule, Assume: lbAssume, CaseBase: 200}
+	lbrc := lb.finish(lb.run(), "translation_validation", nil)
+	lr.CaseBase = 500
+	rc := lr.finish(lr.run(), map[string]interface{}{"layer_b_accept_reject_leg": lb.LastCov})
+	if rc == 0 {
+		return lbrc
+	}
+	return rc
 }
